@@ -48,4 +48,10 @@ session has ended no further keepalive is sent" -/
 def holdsX (k : Nat) (o : XObs) : Bool :=
   o.returned && o.pings == k && o.connClosed && o.errh == 1 && o.disc == 1 && o.pingsAfter == 0
 
+/-- "once the session has ended no further keepalive is sent" when the session ends because the SERVER closes the
+stream (`</stream:stream>`, no I/O error): the receive loop returns, which ends the keepalive; the loss is reported
+by one Disconnected event without an error callback. -/
+def holdsXClose (o : XObs) : Bool :=
+  o.returned && o.disc == 1 && o.errh == 0 && o.pingsAfter == 0
+
 end XmppVerif.Spec.C18
